@@ -22,7 +22,8 @@ structure Preserved (I : World → Prop) : Prop where
     I w → I (resumeFrame w p f sig).1
   finish : ∀ w p v st, I w → I (finishProc w p v st)
   /-- a process is taken out of its suspended state (resumption, start): `blocked := none`, `held` untouched -/
-  clear : ∀ w p (f : Proc → Proc), (∀ x, (f x).held = x.held) → (∀ x, (f x).blocked = none) → I w → I (w.modProc p f)
+  clear : ∀ w p (f : Proc → Proc), (∀ x, (f x).held = x.held) → (∀ x, (f x).blocked = none) → (∀ x, (f x).prio = x.prio) →
+    I w → I (w.modProc p f)
 
 variable {I : World → Prop}
 
@@ -59,10 +60,10 @@ theorem Preserved.runScript (hI : Preserved I) : ∀ fuel w p, I w → I (runScr
       split
       · rename_i w' v extra heq
         rw [heq] at h1
-        exact ih _ _ (hI.same (modProc_same _ _ _ (fun _ => rfl) (fun _ => rfl)) (hI.same (emit_same _ _) h1))
+        exact ih _ _ (hI.same (modProc_same _ _ _ (fun _ => rfl) (fun _ => rfl) (fun _ => rfl)) (hI.same (emit_same _ _) h1))
       · rename_i w' heq
         rw [heq] at h1
-        exact ih _ _ (hI.same (modProc_same _ _ _ (fun _ => rfl) (fun _ => rfl)) (hI.same (emit_same _ _) h1))
+        exact ih _ _ (hI.same (modProc_same _ _ _ (fun _ => rfl) (fun _ => rfl) (fun _ => rfl)) (hI.same (emit_same _ _) h1))
       · rename_i w' heq
         rw [heq] at h1; exact h1
       · rename_i w' heq
@@ -78,11 +79,11 @@ theorem Preserved.resumeProc (hI : Preserved I) (w : World) (p : Pid) (sig : Int
     · exact hI.same (fail_same _ _) h
     · rename_i hst _ f hbl
       have hv : p < w.procs.size := valid_of_running (Decidable.not_not.1 hst)
-      have h1 := hI.resume _ p f sig (by simpa using hv) ⟨w, h, hbl, rfl⟩ (hI.clear w p (fun y => { y with blocked := none }) (fun _ => rfl) (fun _ => rfl) h)
+      have h1 := hI.resume _ p f sig (by simpa using hv) ⟨w, h, hbl, rfl⟩ (hI.clear w p (fun y => { y with blocked := none }) (fun _ => rfl) (fun _ => rfl) (fun _ => rfl) h)
       split
       · rename_i w' v extra heq
         rw [heq] at h1
-        exact hI.runScript _ _ _ (hI.same (modProc_same _ _ _ (fun _ => rfl) (fun _ => rfl)) (hI.same (emit_same _ _) h1))
+        exact hI.runScript _ _ _ (hI.same (modProc_same _ _ _ (fun _ => rfl) (fun _ => rfl) (fun _ => rfl)) (hI.same (emit_same _ _) h1))
       all_goals (rename_i w' heq; rw [heq] at h1; exact h1)
 
 theorem Preserved.dispatch (hI : Preserved I) {w w' : World} (h : I w) (hd : dispatch w = some w') : I w' := by
@@ -97,11 +98,11 @@ theorem Preserved.dispatch (hI : Preserved I) {w w' : World} (h : I w) (hd : dis
     have h1 : I w1 := by
       rw [← hw1]
       refine hI.same (wakeEventWaiters_same _ _ _) (hI.same ?_ h0)
-      exact ⟨rfl, rfl, rfl, rfl, rfl, rfl, id, rfl, fun _ => rfl, fun _ => rfl⟩
+      exact ⟨rfl, rfl, rfl, rfl, rfl, rfl, id, rfl, fun _ => rfl, fun _ => rfl, fun _ => rfl⟩
     split
     · split
       · exact hI.same (fail_same _ _) h1
-      · exact hI.runScript _ _ _ (hI.clear _ _ _ (fun _ => rfl) (fun _ => rfl) h1)
+      · exact hI.runScript _ _ _ (hI.clear _ _ _ (fun _ => rfl) (fun _ => rfl) (fun _ => rfl) h1)
     · split
       · exact hI.resumeProc _ _ _ (hI.same (removeAwait_same _ _ _) h1)
       · split
@@ -149,6 +150,6 @@ theorem Preserved.and {J : World → Prop} (hI : Preserved I) (hJ : Preserved J)
     obtain ⟨w0, h0, hb, e⟩ := hfr
     exact ⟨hI.resume w p f sig hv ⟨w0, h0.1, hb, e⟩ h.1, hJ.resume w p f sig hv ⟨w0, h0.2, hb, e⟩ h.2⟩
   finish w p v st h := ⟨hI.finish w p v st h.1, hJ.finish w p v st h.2⟩
-  clear w p f hf hb h := ⟨hI.clear w p f hf hb h.1, hJ.clear w p f hf hb h.2⟩
+  clear w p f hf hb hp h := ⟨hI.clear w p f hf hb hp h.1, hJ.clear w p f hf hb hp h.2⟩
 
 end CimbaModel.Sim
